@@ -299,7 +299,7 @@ def find_counterexample(prop, violation, cfg, work):
     for f in finders:
         if re.search(f['match'], fn):
             scratch = make_scratch(work)
-            weave(scratch, [f['file']])
+            weave(scratch, f.get('files', [f['file']]))
             if f.get('native'):
                 # a native sampling finder: a #[test] that walks a stated family of inputs on the real code and panics
                 # on the first disagreement with an independent reference (never decides; only supplies a replay)
